@@ -138,7 +138,7 @@ def value(t, rnd, min_len=0):
     raise ValueError(t)
 
 
-def literal(t, rnd):
+def literal(t, rnd, in_array=False):
     """(vyper literal expression, python value); darrays get >= 1 element. No interface types."""
     k = t[0]
     if k == "bool":
@@ -158,25 +158,29 @@ def literal(t, rnd):
         b = bytes(rnd.randrange(256) for _ in range(t[1]))
         return "0x" + b.hex(), b
     if k == "bytes":
-        s = "".join(rnd.choice("abcxyz") for _ in range(rnd.randint(0, min(t[1], 6))))
+        # inside an array literal all members get the same length (the front end does not unify nested
+        # string literals of different lengths)
+        n = min(t[1], 2) if in_array else rnd.randint(0, min(t[1], 6))
+        s = "".join(rnd.choice("abcxyz") for _ in range(n))
         return 'b"' + s + '"', s.encode()
     if k == "string":
-        s = "".join(rnd.choice("abcxyz") for _ in range(rnd.randint(0, min(t[1], 6))))
+        n = min(t[1], 2) if in_array else rnd.randint(0, min(t[1], 6))
+        s = "".join(rnd.choice("abcxyz") for _ in range(n))
         return '"' + s + '"', s
     if k == "flag":
         i = rnd.randrange(t[2])
         return f"{t[1]}.{FLAG_MEMBERS[i]}", 2 ** i
     if k == "sarr":
-        xs = [literal(t[1], rnd) for _ in range(t[2])]
+        xs = [literal(t[1], rnd, True) for _ in range(t[2])]
         return "[" + ", ".join(x[0] for x in xs) + "]", tuple(x[1] for x in xs)
     if k == "darr":
-        xs = [literal(t[1], rnd) for _ in range(rnd.randint(1, t[2]))]
+        xs = [literal(t[1], rnd, True) for _ in range(rnd.randint(1, t[2]))]
         return "[" + ", ".join(x[0] for x in xs) + "]", tuple(x[1] for x in xs)
     if k == "tuple":
-        xs = [literal(x, rnd) for x in t[1]]
+        xs = [literal(x, rnd, in_array) for x in t[1]]
         return "(" + ", ".join(x[0] for x in xs) + ")", tuple(x[1] for x in xs)
     if k == "struct":
-        xs = [literal(x, rnd) for x in t[3]]
+        xs = [literal(x, rnd, in_array) for x in t[3]]
         return f"{t[1]}(" + ", ".join(f"{n}={x[0]}" for n, x in zip(t[2], xs)) + ")", tuple(x[1] for x in xs)
     raise ValueError(t)
 
